@@ -28,11 +28,13 @@ TInit ==
     /\ defq = <<>> /\ out = <<>> /\ called = <<>> /\ submitted = <<>> /\ calledLog = <<>>
     /\ act = [op |-> "init", k |-> 0, a |-> 0]
     /\ TaskRaises = ToSet(Traces[tid].traises) /\ FnRaises = ToSet(Traces[tid].fraises)
+    /\ mgr = Traces[tid].mgr0 /\ early = <<>>
 
 Act(e) ==
-    CASE e.op = "at"      -> InstallAt(e.k, e.a)
+    CASE e.op = "at"      -> IF mgr THEN InstallAt(e.k, e.a) ELSE EarlyAt(e.k, e.a)
       [] e.op = "after"   -> InstallAfter(e.k, e.a)
-      [] e.op = "rec"     -> InstallRec(e.k)
+      [] e.op = "rec"     -> IF mgr THEN InstallRec(e.k) ELSE EarlyRec(e.k)
+      [] e.op = "start"   -> Start
       [] e.op = "suspend" -> Suspend(e.k)
       [] e.op = "resume"  -> Resume(e.k)
       [] e.op = "defer"   -> Defer(e.k)
@@ -47,6 +49,7 @@ Bind(e) ==
     /\ calledLog' = calledLog \o e.st.called
     /\ act' = [op |-> e.op, k |-> e.k, a |-> e.a]
     /\ UNCHANGED <<TaskRaises, FnRaises>>
+    /\ mgr' = e.st.mgr /\ early' = e.st.early
 
 A_FiresOnlyScheduled == \A i \in 1..Len(out') : sched[out'[i][1]] \/ out'[i][1] \in Rec
 A_FifoAmongEquals ==
